@@ -240,7 +240,7 @@ PROPS["C20"] = {
     "custom": "c20",
     "quick": {"workers": 8, "cases": 300, "size": 36, "min_records": 30, "lib_timeout": 20, "reuse_scale": 0.1, "fuzz_jobs": 4, "fuzz_seconds": 60,
               "memcheck_generated": 100, "memcheck_corpus": 60},
-    "thorough": {"workers": 16, "cases": 4000, "size": 50, "min_records": 34, "lib_timeout": 30, "reuse_scale": 0.5, "fuzz_jobs": 16, "fuzz_seconds": 600,
+    "thorough": {"workers": 16, "cases": 4000, "size": 50, "min_records": 34, "lib_timeout": 30, "reuse_scale": 1.0, "fuzz_jobs": 16, "fuzz_seconds": 600,
                  "memcheck_generated": 400, "memcheck_corpus": 1200},
     "min_nontrivial_frac": 0.1,
     "rule": "(0) every other harness (C01-C19) re-run in sanitizer-only mode on a fraction of its budget (semantic oracles ignored, a sanitizer report or crash in a library call is the only failure); (a) generated workloads "
